@@ -126,6 +126,11 @@ def probe_no_work(D, N, seed):
     return {"ok": not bad, "bad": bad, "all": res}
 
 
+def _gs_steady(f, k, sgn):
+    u = (1 + sgn * np.sqrt(1 - 4 * (f + k) ** 2 / f)) / 2
+    return [float(u), float(f * (1 - u) / (f + k))]
+
+
 def probe_fixed_points(D, N, order, seed):
     import jax.numpy as jnp
     import exponax as ex
@@ -139,6 +144,11 @@ def probe_fixed_points(D, N, order, seed):
         ("AllenCahn:u=sqrt(-c1/c3)", rea.AllenCahn(D, L, N, dt, first_order_coefficient=c1, third_order_coefficient=c3, order=order), [np.sqrt(-c1 / c3)]),
         ("AllenCahn:u=-sqrt(-c1/c3)", rea.AllenCahn(D, L, N, dt, first_order_coefficient=c1, third_order_coefficient=c3, order=order), [-np.sqrt(-c1 / c3)]),
         ("GrayScott:(1,0)", rea.GrayScott(D, L, N, dt, order=order), [1.0, 0.0]),
+        # documented reaction f(1-u) - u v^2, -(f+k) v + u v^2: non-trivial homogeneous steady states for 4(f+k)^2 <= f
+        ("GrayScott(f=0.03,k=0.05):nontrivial+", rea.GrayScott(D, L, N, dt, feed_rate=0.03, kill_rate=0.05, order=order),
+         _gs_steady(0.03, 0.05, +1)),
+        ("GrayScott(f=0.05,k=0.05):nontrivial-", rea.GrayScott(D, L, N, dt, feed_rate=0.05, kill_rate=0.05, order=order),
+         _gs_steady(0.05, 0.05, -1)),
         ("CahnHilliard:u=0.37", rea.CahnHilliard(D, L, N, dt, order=order), [0.37]),
         ("SwiftHohenberg:u=0", rea.SwiftHohenberg(D, L * 4, N, dt, order=order), [0.0]),
         # documented equation u_t = r u − (k + Δ)² u + u² − u³: constant equilibria solve (r − k²) u + u² − u³ = 0
